@@ -314,3 +314,37 @@ Theorem C10_role_update_frame : forall d top name top' c m,
   option_map shallow (find_role_in m top') = option_map shallow (find_role_in m top).
 Proof. exact replace_role_frame. Qed.
 Print Assumptions C10_role_update_frame.
+
+(* the cross-party flow inside the state machine (OpUpdate: the holder of a delegated role adds targets, sets
+   version and expiration and signs elsewhere; the owner calls update_delegated_targets): the incoming metadata
+   is taken only with a threshold of distinct authorised signatures under the delegating role and a version not
+   lower; the role then holds the incoming document - the holder's additions over the targets it had - under the
+   header its delegating role has for it, and no role is under edit. Programs containing such steps are covered
+   by C10_program_roundtrip like any other. *)
+Theorem C10_update_checked : forall r st name adds version expires keys st',
+  ed_step r st (OpUpdate name adds version expires keys) = Some st' ->
+  exists top cur dk sibs inc top',
+    rd_top st = Some top /\ parent_in name top = Some (dk, sibs) /\ find_role_in name top = Some cur
+    /\ incoming r top name adds version expires keys = Some inc
+    /\ (exists h, find_hdr name (hdrs_of sibs) = Some h
+                  /\ spec_accept dk (dh_keyids h) (dh_threshold h) (sign_with (dh_keyids (en_hdr cur)) (en_signers inc)) = true)
+    /\ en_version cur <= version
+    /\ rd_te st' = None /\ rd_top st' = Some top'
+    /\ exists c, find_role_in name top' = Some c
+                 /\ en_hdr c = en_hdr cur /\ en_version c = version /\ en_expires c = expires
+                 /\ en_entries c = textend (en_entries cur) adds /\ en_dkeys c = en_dkeys cur /\ en_signers c = en_signers inc.
+Proof. exact update_checked. Qed.
+Print Assumptions C10_update_checked.
+
+(* non-vacuity: publish, holder of A adds a/new at version 5 with two of its three keys (threshold 2), owner
+   takes it in and signs again, the client loads the new target; one key, or an older version: refused *)
+Example C10_cross_party_example : forall cs,
+  exists tg sn ts srv w,
+    ed_program_sign x_len x_len (x_root cs) (x_cross [4; 6] 5) [1; 2; 3; 20] = Some (tg, sn, ts, srv)
+    /\ run_cycle fixed (x_cyc cs srv) store0 = (Ok {| rp_root := x_root cs; rp_ts := ts; rp_snap := sn; rp_targets := tg |}, w)
+    /\ map (fun ni => (tn_raw (fst ni), ti_len (snd ni))) (targets_iter tg)
+       = [([116], 5); ([97; 47; 120], 1); ([97; 47; 110; 101; 119], 7); ([98; 47; 122], 2)]
+    /\ nth 29 (snd (ed_run (x_root cs) red_new (x_cross [4; 6] 5))) false = true
+    /\ nth 29 (snd (ed_run (x_root cs) red_new (x_cross [4] 5))) true = false
+    /\ nth 29 (snd (ed_run (x_root cs) red_new (x_cross [4; 6] 2))) true = false.
+Proof. exact cross_example. Qed.
